@@ -396,6 +396,51 @@ pub fn run(ctx: &Ctx, rep: &mut Report) {
             }
         }
     }
+    // (iii-c) header numbers written with many digits: values at and just past the points where
+    // an 8/16/32/64/128-bit accumulator wraps, chosen so that the wrapped value would be a
+    // perfectly acceptable small number (and the same digits behind leading zeros)
+    {
+        let pows: [u128; 5] = [1 << 8, 1 << 16, 1 << 32, 1 << 64, u128::MAX];
+        let mut item = 0u64;
+        for fld in 0..4usize {
+            for (pi, p) in pows.iter().enumerate() {
+                for small in 0u128..8 {
+                    for zeros in [0usize, 1, 3, 9] {
+                        if !ctx.mine(item) {
+                            item += 1;
+                            continue;
+                        }
+                        item += 1;
+                        let digits: Vec<String> = if pi == 4 {
+                            // 2^128 + small (39 digits) written out by hand, and 2^128 - 1 - small
+                            vec![format!("340282366920938463463374607431768211{}", 456 + small), format!("{}", u128::MAX - small)]
+                        } else {
+                            vec![format!("{}", p + small), format!("{}", p * 2 + small), format!("{}", p - 1 - small), format!("{}", p * 10 + small)]
+                        };
+                        for d in digits {
+                            let s = format!("{}{}", "0".repeat(zeros), d);
+                            let val: Option<u128> = d.parse().ok();
+                            let mut b = Build::simple(1, 1, None, b"A", b"15RTgt0PAso;90TKcjM8h6g208CQ", 0);
+                            match fld {
+                                0 => {
+                                    b.n = s;
+                                    // a wrapped count of 2.. would wait for more fragments: keep k = 1
+                                }
+                                1 => {
+                                    b.n = "9".into();
+                                    b.k = s;
+                                }
+                                2 => b.id = s,
+                                _ => b.fill = s,
+                            }
+                            let within = val.map_or(false, |v| v <= 255);
+                            judge(rep, &b.line(), if within { "wide-number-in-range" } else { "wide-number" }, ["count", "number", "id", "fill"][fld]);
+                        }
+                    }
+                }
+            }
+        }
+    }
     // (iv) random bytes
     for _ in 0..ctx.budget(100_000, 1_000_000) {
         let n = r.usize(0, 120);
